@@ -28,6 +28,9 @@ Model/ClientIP.vos Model/ClientIP.vok Model/ClientIP.required_vos: Model/ClientI
 Model/LB.vo Model/LB.glob Model/LB.v.beautified Model/LB.required_vo: Model/LB.v Base/Prelude.vo Base/Wrap.vo Base/Bytes.vo Model/Hash.vo Model/Strategy.vo Model/ClientIP.vo Model/Limiter.vo Model/Breaker.vo
 Model/LB.vio: Model/LB.v Base/Prelude.vio Base/Wrap.vio Base/Bytes.vio Model/Hash.vio Model/Strategy.vio Model/ClientIP.vio Model/Limiter.vio Model/Breaker.vio
 Model/LB.vos Model/LB.vok Model/LB.required_vos: Model/LB.v Base/Prelude.vos Base/Wrap.vos Base/Bytes.vos Model/Hash.vos Model/Strategy.vos Model/ClientIP.vos Model/Limiter.vos Model/Breaker.vos
+Model/Admin.vo Model/Admin.glob Model/Admin.v.beautified Model/Admin.required_vo: Model/Admin.v Base/Prelude.vo Base/Bytes.vo Model/Strategy.vo Model/LB.vo
+Model/Admin.vio: Model/Admin.v Base/Prelude.vio Base/Bytes.vio Model/Strategy.vio Model/LB.vio
+Model/Admin.vos Model/Admin.vok Model/Admin.required_vos: Model/Admin.v Base/Prelude.vos Base/Bytes.vos Model/Strategy.vos Model/LB.vos
 Proofs/LimiterProofs.vo Proofs/LimiterProofs.glob Proofs/LimiterProofs.v.beautified Proofs/LimiterProofs.required_vo: Proofs/LimiterProofs.v Base/Prelude.vo Model/Limiter.vo
 Proofs/LimiterProofs.vio: Proofs/LimiterProofs.v Base/Prelude.vio Model/Limiter.vio
 Proofs/LimiterProofs.vos Proofs/LimiterProofs.vok Proofs/LimiterProofs.required_vos: Proofs/LimiterProofs.v Base/Prelude.vos Model/Limiter.vos
@@ -43,6 +46,9 @@ Proofs/StrategyProofs.vos Proofs/StrategyProofs.vok Proofs/StrategyProofs.requir
 Proofs/LBProofs.vo Proofs/LBProofs.glob Proofs/LBProofs.v.beautified Proofs/LBProofs.required_vo: Proofs/LBProofs.v Base/Prelude.vo Base/Wrap.vo Base/Bytes.vo Model/Hash.vo Model/Strategy.vo Model/ClientIP.vo Model/Limiter.vo Model/Breaker.vo Model/LB.vo Proofs/StrategyProofs.vo
 Proofs/LBProofs.vio: Proofs/LBProofs.v Base/Prelude.vio Base/Wrap.vio Base/Bytes.vio Model/Hash.vio Model/Strategy.vio Model/ClientIP.vio Model/Limiter.vio Model/Breaker.vio Model/LB.vio Proofs/StrategyProofs.vio
 Proofs/LBProofs.vos Proofs/LBProofs.vok Proofs/LBProofs.required_vos: Proofs/LBProofs.v Base/Prelude.vos Base/Wrap.vos Base/Bytes.vos Model/Hash.vos Model/Strategy.vos Model/ClientIP.vos Model/Limiter.vos Model/Breaker.vos Model/LB.vos Proofs/StrategyProofs.vos
+Proofs/AdminProofs.vo Proofs/AdminProofs.glob Proofs/AdminProofs.v.beautified Proofs/AdminProofs.required_vo: Proofs/AdminProofs.v Base/Prelude.vo Base/Bytes.vo Model/Strategy.vo Model/LB.vo Model/Admin.vo
+Proofs/AdminProofs.vio: Proofs/AdminProofs.v Base/Prelude.vio Base/Bytes.vio Model/Strategy.vio Model/LB.vio Model/Admin.vio
+Proofs/AdminProofs.vos Proofs/AdminProofs.vok Proofs/AdminProofs.required_vos: Proofs/AdminProofs.v Base/Prelude.vos Base/Bytes.vos Model/Strategy.vos Model/LB.vos Model/Admin.vos
 Cases/LimiterCase.vo Cases/LimiterCase.glob Cases/LimiterCase.v.beautified Cases/LimiterCase.required_vo: Cases/LimiterCase.v Base/Prelude.vo Model/Limiter.vo
 Cases/LimiterCase.vio: Cases/LimiterCase.v Base/Prelude.vio Model/Limiter.vio
 Cases/LimiterCase.vos Cases/LimiterCase.vok Cases/LimiterCase.required_vos: Cases/LimiterCase.v Base/Prelude.vos Model/Limiter.vos
@@ -55,6 +61,9 @@ Cases/StrategyCase.vos Cases/StrategyCase.vok Cases/StrategyCase.required_vos: C
 Cases/LBCase.vo Cases/LBCase.glob Cases/LBCase.v.beautified Cases/LBCase.required_vo: Cases/LBCase.v Base/Prelude.vo Base/Wrap.vo Base/Bytes.vo Model/Hash.vo Model/Strategy.vo Model/ClientIP.vo Model/Limiter.vo Model/Breaker.vo Model/LB.vo
 Cases/LBCase.vio: Cases/LBCase.v Base/Prelude.vio Base/Wrap.vio Base/Bytes.vio Model/Hash.vio Model/Strategy.vio Model/ClientIP.vio Model/Limiter.vio Model/Breaker.vio Model/LB.vio
 Cases/LBCase.vos Cases/LBCase.vok Cases/LBCase.required_vos: Cases/LBCase.v Base/Prelude.vos Base/Wrap.vos Base/Bytes.vos Model/Hash.vos Model/Strategy.vos Model/ClientIP.vos Model/Limiter.vos Model/Breaker.vos Model/LB.vos
+Cases/AdminCase.vo Cases/AdminCase.glob Cases/AdminCase.v.beautified Cases/AdminCase.required_vo: Cases/AdminCase.v Base/Prelude.vo Base/Bytes.vo Model/Strategy.vo Model/LB.vo Model/Admin.vo
+Cases/AdminCase.vio: Cases/AdminCase.v Base/Prelude.vio Base/Bytes.vio Model/Strategy.vio Model/LB.vio Model/Admin.vio
+Cases/AdminCase.vos Cases/AdminCase.vok Cases/AdminCase.required_vos: Cases/AdminCase.v Base/Prelude.vos Base/Bytes.vos Model/Strategy.vos Model/LB.vos Model/Admin.vos
 Props/C09.vo Props/C09.glob Props/C09.v.beautified Props/C09.required_vo: Props/C09.v Base/Prelude.vo Model/Limiter.vo Proofs/LimiterProofs.vo
 Props/C09.vio: Props/C09.v Base/Prelude.vio Model/Limiter.vio Proofs/LimiterProofs.vio
 Props/C09.vos Props/C09.vok Props/C09.required_vos: Props/C09.v Base/Prelude.vos Model/Limiter.vos Proofs/LimiterProofs.vos
@@ -85,3 +94,6 @@ Props/C04.vos Props/C04.vok Props/C04.required_vos: Props/C04.v Base/Prelude.vos
 Props/C03.vo Props/C03.glob Props/C03.v.beautified Props/C03.required_vo: Props/C03.v Base/Prelude.vo Model/Strategy.vo Model/LB.vo Proofs/LBProofs.vo
 Props/C03.vio: Props/C03.v Base/Prelude.vio Model/Strategy.vio Model/LB.vio Proofs/LBProofs.vio
 Props/C03.vos Props/C03.vok Props/C03.required_vos: Props/C03.v Base/Prelude.vos Model/Strategy.vos Model/LB.vos Proofs/LBProofs.vos
+Props/C10.vo Props/C10.glob Props/C10.v.beautified Props/C10.required_vo: Props/C10.v Base/Prelude.vo Base/Bytes.vo Model/Strategy.vo Model/LB.vo Model/Admin.vo Proofs/AdminProofs.vo
+Props/C10.vio: Props/C10.v Base/Prelude.vio Base/Bytes.vio Model/Strategy.vio Model/LB.vio Model/Admin.vio Proofs/AdminProofs.vio
+Props/C10.vos Props/C10.vok Props/C10.required_vos: Props/C10.v Base/Prelude.vos Base/Bytes.vos Model/Strategy.vos Model/LB.vos Model/Admin.vos Proofs/AdminProofs.vos
